@@ -79,7 +79,14 @@ func (t *Writer) Close() {
 type Rng struct{ s uint64 }
 
 // NewRng seeds.
-func NewRng(seed int64) *Rng { return &Rng{uint64(seed)*0x9E3779B97F4A7C15 + 0x1234567} }
+// The seed goes through the output function first: with the state starting at a multiple of the increment the
+// streams of consecutive seeds would be one another shifted by one.
+func NewRng(seed int64) *Rng {
+	z := uint64(seed) + 0x1234567
+	z = (z ^ (z >> 30)) * 0xBF58476D1CE4E5B9
+	z = (z ^ (z >> 27)) * 0x94D049BB133111EB
+	return &Rng{z ^ (z >> 31)}
+}
 
 // U64 next.
 func (r *Rng) U64() uint64 {
